@@ -305,6 +305,39 @@ class Body:
                 return False
         return True
 
+    def loops(self):
+        """natural loops: list of (header, set(blocks)) — loops with the same header are merged"""
+        if getattr(self, "_loops", None) is None:
+            by_header = {}
+            for u in self.rpo():
+                for h in self.succ(u):
+                    if self.dominates(h, u):
+                        body = by_header.setdefault(h, {h})
+                        st = [u]
+                        while st:
+                            x = st.pop()
+                            if x in body:
+                                continue
+                            body.add(x)
+                            st.extend(self.pred(x))
+            self._loops = sorted(by_header.items(), key=lambda kv: len(kv[1]))
+        return self._loops
+
+    def innermost_loop(self, blk):
+        for h, body in self.loops():
+            if blk in body:
+                return h, body
+        return None
+
+    def loop_exits(self, body):
+        """[(src_block, dst_block)] edges leaving the loop body"""
+        out = []
+        for x in sorted(body):
+            for s_ in self.succ(x):
+                if s_ not in body:
+                    out.append((x, s_))
+        return out
+
     def return_blocks(self):
         return [b for b in self.rpo() if self.term(b) and self.term(b)["k"] == "return"]
 
